@@ -111,9 +111,11 @@ impl BuildOptimiser {
         // An inner loop has at least one step, which avoids dividing by zero when finding the
         // number of loops, and no more steps than the total.
         let inner_steps = u64::max(1, u64::min(self.inner_steps, self.steps));
+        // The temperature is reduced once for each of the inner loops
+        let loops = u64::max(1, self.steps / inner_steps);
         let kt_ratio = match (self.kt_ratio, self.kt_finish) {
             (Some(ratio), _) => 1. - ratio,
-            (None, Some(finish)) => f64::powf(finish / self.kt_start, 1. / self.steps as f64),
+            (None, Some(finish)) => f64::powf(finish / self.kt_start, 1. / loops as f64),
             (None, None) => 0.1,
         };
         debug!("Setting kt_ratio to: {}", kt_ratio);
